@@ -218,6 +218,57 @@ def count_boundaries(fam, sb):
             fam.transitions += 1
 
 
+def files_from_odd_lists(fam, sb):
+    """--files-from lists with an entry that is not valid UTF-8 (a Latin-1 file name), an empty line, a CRLF list, a
+    missing final newline: no listed file may be silently skipped - exit 0 means every listed file was handled"""
+    m = Machine(sb, fam)
+    unformatted = ALPHABET["shorter-by-many"]
+    ok, formatted, _ = m.F(unformatted)
+    lists = {
+        "latin1-name-in-the-middle": [b"a.pas", b"caf\xe9.pas", b"c.pas", b"d.pas"],
+        "latin1-name-first": [b"caf\xe9.pas", b"c.pas"],
+        "crlf-list": None,
+        "no-final-newline": None,
+        "blank-line-in-the-middle": None,
+    }
+    for lname, entries in lists.items():
+        for mode in ("files", "check", "stdout"):
+            import shutil
+            shutil.rmtree(m.d, ignore_errors=True)
+            os.makedirs(m.d)
+            names = entries or [b"a.pas", b"b.pas", b"c.pas"]
+            paths = [os.path.join(m.d.encode(), n) for n in names]
+            for pth in paths:
+                with open(pth, "wb") as fh:
+                    fh.write(unformatted)
+                os.utime(pth, (OLD, OLD))
+            lst = sb.path("odd-list.txt")
+            sep = b"\r\n" if lname == "crlf-list" else b"\n"
+            body = sep.join(paths)
+            if lname == "blank-line-in-the-middle":
+                body = paths[0] + b"\n\n" + b"\n".join(paths[1:])
+            if lname != "no-final-newline":
+                body += sep
+            open(lst, "wb").write(body)
+            rc, out, err = cli.run([f"--mode={mode}", "--files-from", lst], hermetic_cfg=m.cfg)
+            fam.case(nontrivial=True)
+            fam.transitions += 1
+            case = {"oracle": "c16", "op": mode, "files_from_list": lname, "no_confirm": True}
+            after = [open(pth, "rb").read() for pth in paths]
+            touched = [a != unformatted for a in after]
+            if mode != "files" and any(touched):
+                fam.fail("C16", f"{mode}-mode-modified-a-file", f"list {lname}", case)
+            elif mode == "files" and any(a not in (unformatted, formatted) for a in after):
+                fam.fail("C16", "stale-tail-or-wrong-bytes", f"list {lname}: a listed file holds neither its old nor its formatted bytes", case)
+            elif mode == "files" and rc == 0 and not all(a == formatted for a in after):
+                left = [names[i].decode("latin-1") for i, a in enumerate(after) if a != formatted]
+                fam.fail("C16", "exit-status", f"list {lname}: exit 0 although {left} were listed and are still unformatted; stderr {err[:200]!r}", case)
+            elif mode == "check" and rc == 0:
+                fam.fail("C16", "exit-status", f"list {lname}: check exits 0 although every listed file is unformatted; stderr {err[:200]!r}", case)
+            elif mode == "stdout" and rc == 0 and out.count(b":\n") < len(paths):
+                fam.fail("C16", "stdout-mode-output", f"list {lname}: exit 0 but only {out.count(b':' + chr(10).encode())} of {len(paths)} sections printed", case)
+
+
 def explore(tier, seed):
     import concurrent.futures
     depth = 2 if tier == "quick" else 3
@@ -263,6 +314,8 @@ def explore(tier, seed):
         big_directory(fam, sb, 48 if tier == "quick" else 200)
     with cli.Sandbox("c16-count") as sb:
         count_boundaries(fam, sb)
+    with cli.Sandbox("c16-lists") as sb:
+        files_from_odd_lists(fam, sb)
     return [fam]
 
 
